@@ -48,6 +48,12 @@ fn gen_pair(rng: &mut Rng, lt: &Ty, rt: &Ty, maxlen: usize) -> (String, String) 
     .min(maxlen);
     (gen_vec_len(rng, lt, ll), gen_vec_len(rng, rt, rl))
 }
+/// like `gen_pair`, but one or both operands come out of a short history on the real implementation
+fn gen_pair_hist(rng: &mut Rng, lt: &Ty, rt: &Ty, maxlen: usize, emit: Emit) -> (String, String) {
+    let l = super::gen::produced(rng, lt, maxlen, emit);
+    let r = if rng.chance(1, 2) { super::gen::produced(rng, rt, maxlen, emit) } else { gen_vec(rng, rt, maxlen) };
+    (l, r)
+}
 fn small_exhaustive(ops: &[&str], maxlen: usize, emit: Emit, nonzero_rhs_only: bool) {
     for lt in small_types() {
         let ls = all_small(&lt, maxlen);
@@ -69,8 +75,8 @@ fn gen_binary(rng: &mut Rng, tier: &str, emit: Emit, ops: &[&str], maxlen: usize
     small_exhaustive(ops, if tier == "thorough" { 4 } else { 3 }, emit, false);
     for lt in TYPES {
         for rt in TYPES {
-            for _ in 0..scale(tier, per_pair) {
-                let (l, r) = gen_pair(rng, lt, rt, maxlen);
+            for k in 0..scale(tier, per_pair) {
+                let (l, r) = if k % 4 == 3 { gen_pair_hist(rng, lt, rt, maxlen.min(200), emit) } else { gen_pair(rng, lt, rt, maxlen) };
                 for op in ops {
                     emit(line(op, &[&l, &r, "ar"]));
                 }
